@@ -20,6 +20,8 @@ from . import core
 
 core.bind()
 from marko import block, inline  # noqa: E402
+from marko.ext import footnote as _footnote  # noqa: E402
+from marko.ext.gfm import elements as _gfm_elements  # noqa: E402
 from marko.ext.pangu import PANGU_RE  # noqa: E402
 
 from flowmark.formats.flowmark_markdown import flowmark_markdown  # noqa: E402
@@ -70,7 +72,7 @@ def _a_inl(el, out):
         out.append(("CODESPAN", (("s", _WS.sub(" ", el.children).strip()),), ()))   # (edge spaces: CommonMark strips one of each)
     elif isinstance(el, inline.InlineHTML):
         out.append(("HTML", (("s", _WS.sub(" ", el.children)),), ()))
-    elif isinstance(el, inline.AutoLink) or t == "Url":
+    elif isinstance(el, (inline.AutoLink, _gfm_elements.Url)):
         out.append(("AUTOLINK", (("dest", el.dest),), _a_kids(el)))
     elif isinstance(el, inline.Image):
         out.append(("IMG", (("dest", el.dest), ("title", el.title or None)), _a_kids(el)))
@@ -80,9 +82,9 @@ def _a_inl(el, out):
         out.append(("STRONG", (), _a_kids(el)))
     elif isinstance(el, inline.Emphasis):
         out.append(("EM", (), _a_kids(el)))
-    elif t in ("Strikethrough", "CustomStrikethrough"):
+    elif isinstance(el, _gfm_elements.Strikethrough):
         out.append(("DEL", (), _a_kids(el)))
-    elif t == "FootnoteRef":
+    elif isinstance(el, _footnote.FootnoteRef):
         out.append(("FNREF", (("label", el.label),), ()))
     else:
         ch = getattr(el, "children", None)
@@ -129,7 +131,7 @@ def _a_blk(el):
         return ("HR", (), ())
     if isinstance(el, block.LinkRefDef):
         return ("DEF", (("label", el.label), ("dest", el.dest), ("title", el.title or None)), ())
-    if t == "Alert":
+    if t == "Alert" or hasattr(el, "alert_type"):
         return ("ALERT", (("type", el.alert_type),), _a_blocks(el))
     if isinstance(el, block.Quote):
         return ("QUOTE", (), _a_blocks(el))
@@ -138,14 +140,15 @@ def _a_blk(el):
                 tuple(("ITEM", (), _a_blocks(i)) for i in el.children))
     if isinstance(el, block.ListItem):
         return ("ITEM", (), _a_blocks(el))
-    if t == "FootnoteDef":
+    if isinstance(el, _footnote.FootnoteDef):   # (by class, not by name: the repository may register a subclass)
         return ("FNDEF", (("label", el.label),), _a_blocks(el))
-    if t == "Table":
+    if isinstance(el, _gfm_elements.Table):
         return ("TABLE", (("align", tuple(_align(d) for d in el.delimiters)),),
                 tuple(("ROW", (), tuple(("CELL", (), _a_kids(c)) for c in row.children)) for row in el.children))
     if isinstance(el, block.HTMLBlock):
         return ("HTMLBLOCK", (("s", el.body),), ())
-    return (t.upper(), (), ())
+    # an unknown block type must not become an opaque leaf (its content would silently drop out of every comparison)
+    raise RuntimeError(f"HARNESS: Reader A does not know block type {t}")
 
 
 def _a_blocks(el):
